@@ -1036,3 +1036,26 @@ Definition is_whitelisted (h : hub) (user agent : Z) : bool :=
 Definition hub_facts (h : hub) (sc_whitelist : list Z) (user c : Z) : facts :=
   mkFacts false 0 (fun p => match p with PWhitelistedSC => zmem c sc_whitelist | _ => false end)
           (pmem (user, c) (h_wl h)) (zmem c (h_black h)).
+
+(** ------------------------------------------------------------------ claiming on behalf
+    external_interaction.rs (farm, farm-with-locked-rewards, farm-staking) claim_rewards_on_behalf:
+    the user is read from the paid positions (original_owner_helper::get_claim_original_owner: every
+    payment must carry the same, non-zero original owner — 0 stands for a legacy position without
+    owner), the caller must be authorised by that user in the hub, the new position token goes back
+    to the caller and the rewards are sent to the user.  [owners] are the original-owner fields of
+    the paid positions; the result lists the reward transfers (recipient, amount). *)
+Fixpoint claim_original_owner (owners : list Z) (acc : option Z) : result Z :=
+  match owners with
+  | [] => match acc with Some o => Ok o | None => Err EGuard end
+  | o :: t =>
+      check negb (o =? 0) else EGuard;
+      match acc with
+      | Some a => check (a =? o) else EGuard; claim_original_owner t acc
+      | None => claim_original_owner t (Some o)
+      end
+  end.
+
+Definition claim_on_behalf (h : hub) (caller : Z) (owners : list Z) (reward : Z) : result (list (Z * Z)) :=
+  do user <- claim_original_owner owners None;
+  check is_whitelisted h user caller else EPerm;
+  Ok [(user, reward)].
